@@ -98,3 +98,83 @@ def run(cases, go, workdir, limit_ops=4000):
     body = m.group(1).strip() if m else "?"
     mism = [] if body == "[]" else [body[:500]]
     return len(used), total, mism, None
+
+
+# ---------------- concurrent model ----------------
+def xcop_term(o):
+    f = o.split()
+    if f[0] == "I":
+        return "XCI %s %s" % (key(f[1]), val(f[2]))
+    if f[0] == "U":
+        return "XCU %s %s" % (key(f[1]), zlit(int(f[2])))
+    if f[0] == "D":
+        return "XCD %s" % key(f[1])
+    if f[0] == "S":
+        return "XCS %s" % key(f[1])
+    return "XCC %s %d" % (key(f[1]), int(f[2]))
+
+
+def xores_term(r):
+    if r == "ok":
+        return "XRUnit"
+    m = re.match(r"arg=(\S+)/calls=1$", r)
+    if m:
+        return "XRArg %s" % optval(m.group(1))
+    if r.startswith("found="):
+        return "XRFound %s" % optval(r[6:])
+    if r.startswith("pairs="):
+        return "XRPairs %s" % pairs(r[6:])
+    return None
+
+
+def run_conc(cases, go_runs, workdir, limit_steps=3000):
+    """cases: dict id -> sched case; go_runs: dict (id, k) -> parsed Go run. Complete runs only."""
+    from . import schedcheck
+    items, used, steps = [], 0, 0
+    per_case = {}
+    for (cid, k), run in go_runs.items():
+        c = cases.get(cid)
+        if per_case.get(cid, 0) >= 2:
+            continue
+        if c is None or run["deadlock"] or run["truncated"] or run["odd"] or not run["end"]:
+            continue
+        if steps + len(run["steps"]) > limit_steps or len(run["steps"]) > 120 or c["order"] > 16:
+            continue
+        try:
+            final = tree_term(seqcheck.parse_snap(schedcheck.split_state(run["end"])["tree"]))
+        except Exception:
+            continue
+        res_terms = []
+        ok = True
+        for t, rs in run["res"].items():
+            parts = [xores_term(x) for x in rs.split(";") if x]
+            if any(p is None for p in parts):
+                ok = False
+                break
+            res_terms.append("(%d, [%s])" % (t, "; ".join(parts)))
+        if not ok:
+            continue
+        init = "; ".join(xcop_term(o) for o in c["init"] if o.strip())
+        progs = "; ".join("(%d, [%s])" % (t, "; ".join(xcop_term(o) for o in c["progs"][t])) for t in sorted(c["progs"]))
+        sched = "; ".join(str(s["w"]) for s in run["steps"])
+        items.append("  {| xc_id := %d; xc_order := %d; xc_init := [%s]; xc_progs := [%s]; xc_sched := [%s]; xc_final := %s; xc_results := [%s] |}"
+                     % (used, c["order"], init, progs, sched, final, "; ".join(res_terms)))
+        used += 1
+        per_case[cid] = per_case.get(cid, 0) + 1
+        steps += len(run["steps"])
+        if used >= 60:
+            break
+    if not items:
+        return 0, 0, [], None
+    lines = ["From Coq Require Import ZArith List.", "From GB Require Import Model Instances Conc CrossCheck CrossCheckConc.", "Import ListNotations.",
+             "Definition cases : list xccase := [", ";\n".join(items), "].",
+             "Definition M := Eval vm_compute in xc_mismatches cases.", "Print M."]
+    path = os.path.join(workdir, "xccases.v")
+    open(path, "w").write("\n".join(lines) + "\n")
+    r = common.run(["timeout", "900", "coqc", "-Q", common.COQ, "GB", path], cwd=workdir)
+    out = r.stdout + r.stderr
+    if r.returncode != 0:
+        return used, steps, None, out[-1500:]
+    m = re.search(r"M\s*=\s*(.*?)\s*:\s*list", out, flags=re.S)
+    body = m.group(1).strip() if m else "?"
+    return used, steps, ([] if body == "[]" else [body[:300]]), None
